@@ -811,10 +811,17 @@ class AirTouch4(pyairtouch.api.AirTouch):
         Opens the socket to communicate with the AirTouch and loads initial
         state related to the capabilities of the AirTouch system.
         """
-        self._state = _AirTouchState.CONNECTING
-        self._socket.subscribe_on_connection_changed(self._connection_changed)
-        self._socket.subscribe_on_message_received(self._message_received)
-        await self._socket.open_socket()
+        if not self._initialised_event.is_set():
+            self._state = _AirTouchState.CONNECTING
+            self._socket.subscribe_on_connection_changed(self._connection_changed)
+            self._socket.subscribe_on_message_received(self._message_received)
+            await self._socket.open_socket()
+            if self._socket.is_connected:
+                # The connection of an earlier attempt is still there, so there
+                # won't be a connection notification to start things off.
+                await self._connection_changed(connected=True)
+        # Otherwise an earlier call has completed the initialisation already:
+        # leave the state alone so that updates continue to be processed.
 
         # Initialisation should finish quite quickly, but allow up to 5 seconds
         with contextlib.suppress(asyncio.TimeoutError):
